@@ -14,3 +14,11 @@ mod util;
 
 #[cfg(kani)]
 mod c16;
+#[cfg(kani)]
+mod c15;
+#[cfg(kani)]
+mod c17;
+#[cfg(kani)]
+mod c17_gen;
+#[cfg(kani)]
+mod c19;
